@@ -296,6 +296,33 @@ func (p *Program) indexFile(pk *packages.Package, f *ast.File) {
 
 func (p *Program) indexLits(parent *FuncInfo, root ast.Node) {
 	n := 0
+	// role names: a literal assigned to x.sel / ident, or used as a keyed field value, is named after that role
+	role := map[*ast.FuncLit]string{}
+	ast.Inspect(root, func(x ast.Node) bool {
+		switch s := x.(type) {
+		case *ast.AssignStmt:
+			if len(s.Lhs) == len(s.Rhs) {
+				for i, r := range s.Rhs {
+					if lit, ok := ast.Unparen(r).(*ast.FuncLit); ok {
+						switch l := ast.Unparen(s.Lhs[i]).(type) {
+						case *ast.SelectorExpr:
+							role[lit] = l.Sel.Name
+						case *ast.Ident:
+							role[lit] = l.Name
+						}
+					}
+				}
+			}
+		case *ast.KeyValueExpr:
+			if lit, ok := ast.Unparen(s.Value).(*ast.FuncLit); ok {
+				if k, ok := s.Key.(*ast.Ident); ok {
+					role[lit] = k.Name
+				}
+			}
+		}
+		return true
+	})
+	used := map[string]int{}
 	var walk func(parent *FuncInfo, root ast.Node)
 	walk = func(parent *FuncInfo, root ast.Node) {
 		ast.Inspect(root, func(x ast.Node) bool {
@@ -304,7 +331,15 @@ func (p *Program) indexLits(parent *FuncInfo, root ast.Node) {
 				return true
 			}
 			n++
-			fi := &FuncInfo{Name: fmt.Sprintf("%s$%d", parent.Name, n), Lit: lit, Pkg: parent.Pkg, File: parent.File, prog: p}
+			name := fmt.Sprintf("%s$%d", parent.Name, n)
+			if r, ok := role[lit]; ok {
+				name = parent.Name + ":" + r
+				used[name]++
+				if used[name] > 1 {
+					name = fmt.Sprintf("%s#%d", name, used[name])
+				}
+			}
+			fi := &FuncInfo{Name: name, Lit: lit, Pkg: parent.Pkg, File: parent.File, prog: p}
 			p.lits[lit] = fi
 			p.funcs[fi.Name] = fi
 			p.Units.Functions++
